@@ -111,3 +111,82 @@ def guard_dominated(prog, fn, site, tracer):
         if site['bb'] not in reach_bad:
             return {'guard_block': b, 'guard': '%s on %s' % (kind, sorted(tested)[:3])}
     return None
+
+
+def guarded_by_reassignment(prog, fn, site, tracer):
+    """`if x.is_none() { x = Some(..) } ... x.unwrap()`: every path from entry to the unwrap passes through an assignment
+    of Some(..) to the unwrapped local, or through the is-some side of a test on that very local."""
+    t = site['term']
+    if not site['kind'].startswith('unwrap:Option') or not t['args']:
+        return None
+    d = du(fn)
+    g = cfg(fn)
+    # the local that is unwrapped: follow moves / refs back to a local with several definitions
+    l = None
+    o = t['args'][0]
+    seen = set()
+    while o.get('k') in ('copy', 'move') and 'p' not in o['pl'] and o['pl']['l'] not in seen:
+        seen.add(o['pl']['l'])
+        defs = [x for x in d.defs.get(o['pl']['l'], []) if x['kind'] in ('assign', 'call')]
+        if len(defs) != 1:
+            l = o['pl']['l']
+            break
+        df = defs[0]
+        if df['kind'] == 'assign' and df['rv']['k'] == 'use':
+            o = df['rv']['op']
+        elif df['kind'] == 'assign' and df['rv']['k'] == 'ref' and 'p' not in df['rv']['pl']:
+            o = {'k': 'copy', 'pl': df['rv']['pl']}
+        elif df['kind'] == 'call' and callee_short(df['term']).rsplit('::', 1)[-1] in ('as_ref', 'as_mut', 'take', 'clone') \
+                and df['term']['args']:
+            o = df['term']['args'][0]
+        else:
+            l = o['pl']['l']
+            break
+    if l is None:
+        return None
+    defs = [x for x in d.defs.get(l, []) if x['kind'] in ('assign', 'call')]
+    def is_some_def(x):
+        if x['kind'] != 'assign':
+            return False
+        rv = x['rv']
+        if rv['k'] == 'agg' and rv.get('var') == 'Some':
+            return True
+        if rv['k'] == 'use' and rv['op'].get('k') in ('copy', 'move') and 'p' not in rv['op']['pl']:
+            d2 = d.single_def(rv['op']['pl']['l'])
+            return bool(d2 and d2['kind'] == 'assign' and d2['rv']['k'] == 'agg' and d2['rv'].get('var') == 'Some')
+        return False
+    some_blocks = [x['bb'] for x in defs if is_some_def(x)]
+    if not some_blocks:
+        return None
+    good = []
+    for b in range(len(fn.blocks)):
+        tt = fn.blocks[b]['term']
+        if not tt or tt['k'] != 'switch':
+            continue
+        c = resolve_cond(prog, fn, tt['d'], tracer)
+        if c is None or c.desc[0] != 'is_some':
+            continue
+        # is the tested value this local?  (the discriminant read / is_some call takes a reference to it)
+        src = tt['d']
+        tested_local = None
+        df = d.single_def(src['pl']['l']) if src.get('k') in ('copy', 'move') and 'p' not in src['pl'] else None
+        if df and df['kind'] == 'call' and df['term']['args']:
+            a0 = df['term']['args'][0]
+            df2 = d.single_def(a0['pl']['l']) if a0.get('k') in ('copy', 'move') and 'p' not in a0['pl'] else None
+            if df2 and df2['kind'] == 'assign' and df2['rv']['k'] == 'ref' and 'p' not in df2['rv']['pl']:
+                tested_local = df2['rv']['pl']['l']
+        elif df and df['kind'] == 'assign' and df['rv']['k'] == 'discr' and 'p' not in df['rv']['pl']:
+            tested_local = df['rv']['pl']['l']
+        if tested_local != l:
+            continue
+        vals = [v for v, _ in tt['ts']]
+        for v, tb in tt['ts']:
+            if c.truth_of_value(v):
+                good.append(tb)
+        rest = {0, 1} - set(vals)
+        if len(rest) == 1 and c.truth_of_value(rest.pop()):
+            good.append(tt['else'])
+    w = g.path([0], lambda b: b == site['bb'], avoid=some_blocks + good)
+    if w is None and site['bb'] not in some_blocks:
+        return {'guard': 'assigned Some(..) (blocks %s) or tested is_some on every path' % sorted(set(some_blocks))}
+    return None
